@@ -8,16 +8,16 @@ ids = [p["id"] for p in props]
 COMMON_NOTE = ("Trusted base: TLC; the hook snapshot (cfg simple_irc_server_verif) projecting the server state; the harness's wire "
                "abstraction (harness/src/absmsg.rs); Tokio's schedules are sampled, not enumerated. Exhaustive only within the models' constants.")
 CLAIMS = {
- "C01": ("MC_Msg: TLC checks delivery = Audience (exactly one copy, true prefix, target/text as sent) on every transition; every transition class replayed on the real server; random histories validated step by step", "7/C01"),
+ "C01": ("MC_Msg: TLC checks delivery = Audience (exactly one copy, true prefix, target/text as sent) on every transition of a 512-state combination product; every transition replayed on the real server; random histories validated step by step; delivery to and around stalled receivers; concurrent message storms while receivers part, rename, are kicked or disconnect under lock contention, accepted only if TraceLin finds a serial order that explains every copy", "7/C01 and 0.5"),
  "C02": ("MC_Reg: ownership invariant and 'acts only as itself' step property over all orders of registration steps, refusals and closes of contending connections; replay + random histories; concurrent claim rounds (see C18)", "7/C02"),
  "C03": ("MC_Gate: the registration gate (451 for every gated verb, password/mask/CAP conditions, 464 closes) under server password and configured users; replay of the whole graph", "7/C03"),
  "C04": ("MC_Chan/MC_Join: membership symmetry invariant, the NAMES/WHO/WHOIS views equal the member set in every state, every change announced; replay + random histories", "7/C04"),
- "C05": ("Shapes.tla: verb x arity x parameter-shape product enumerated by TLC; every line sent in each session-state class (unregistered, half-registered, alone, member, founder, operator, last member) with an effect-based oracle (sender stays connected and registered, nobody else closed, invariants hold, bystander probes validated by the specification); random histories validated step by step", "7/C05"),
+ "C05": ("Shapes.tla: verb x arity x parameter-shape product enumerated by TLC; every line sent in each session-state class (unregistered, half-registered, alone, member, founder, operator, last member) with an effect-based oracle (sender stays connected and registered, nobody else closed, invariants hold, bystander probes validated by the specification); random histories validated step by step; LockFlush.tla: design model of \"replies are buffered under the state lock and flushed after it is released\" - TLC: no handler waits for a socket under the lock, every reading client keeps being served (liveness under fairness), the flush-under-lock variant wedges; Apalache: inductive invariant for any buffer sizes (thorough); bound to the code by the stalled-receiver scenarios (a client that stops reading and floods itself with long replies)", "7/C05 and 0.2"),
  "C06": ("MC_End: teardown = Erase with the frame condition written out, for QUIT/close/reset/half line/KILL at every reachable state; replay + random histories", "7/C06"),
- "C07": ("MC_Join: handler admits iff the declarative Admissible, refusal changes nothing and yields only matching numerics; full product of key/ban/exception/invite/limit/quota; replay", "7/C07"),
+ "C07": ("MC_Join, MC_Invite: handler admits iff the declarative Admissible, refusal changes nothing and yields only matching numerics; full product of key/ban/exception/invite/limit/quota; replay", "7/C07"),
  "C08": ("MC_Mode: per-letter privilege table against the handler for every letter, sign, actor and target rank incl. composite strings; enforcement probes; replay", "7/C08"),
- "C09": ("MC_Kti: MayKick/MayTopic/MayInvite against the handlers for all rank pairs, lists with absent/repeated/own names, last member; replay", "7/C09"),
- "C10": ("MC_Msg: delivery iff MaySpeak, 404 for PRIVMSG, no line at all for NOTICE, 301 for away recipients; replay + random histories", "7/C10"),
+ "C09": ("MC_Kti: MayKick/MayTopic/MayInvite against the handlers for all rank pairs, lists with absent/repeated/own names, last member; MC_Invite: an invitation is one admission - it survives a JOIN refused for another reason (+l, key, ban, quota) and is used up by the JOIN it admits; replay", "7/C09"),
+ "C10": ("MC_Msg: delivery iff MaySpeak, 404 for PRIVMSG, no line at all for NOTICE, 301 for away recipients; MC_Speak: histories of lawful and refused changes to the restrictions (b/e/m/n/s/v by operator, plain members, outsiders) followed by attempts to speak - a refused change leaves every restriction as it was; replay + random histories", "7/C10"),
  "C11": ("MC_Oper: operator status appears only through a valid OPER (or default modes), MODE never changes other users, privilege matrix of KILL/DIE/SQUIT/WALLOPS/STATS; replay", "7/C11"),
  "C12": ("MC_Hide: every LIST/NAMES/WHO/WHOIS form answered as in the world without the secret channel / invisible user (2-safety decided by comparing with Hide(S)); replay", "7/C12"),
  "C13": ("Parser.tla: reference tokeniser, serialiser round trip, verb/arity table; every line up to the length bound as a vector for the real tokeniser/classifier; Framer.tla chunking invariance + framing runs on the wire", "7/C13"),
@@ -27,7 +27,7 @@ CLAIMS = {
  "C16": ("MC_Life: Fresh channel on creation, removal with the last member by every exit, preconfigured channel persistence and configured ranks; replay", "7/C16"),
  "C17": ("Keepalive.tla: discrete-time model of waker, pong timeouts and notifier, all (ping,pong) in 1..4 x 1..5 and six client patterns checked exhaustively (live kept, dead dropped on time); real-time runs of the grid validated by TraceTimers.tla; PING/PONG token echo in every random history", "7/C17"),
  "C18": ("TraceLin.tla: concurrent rounds (2/4/16 worker threads, seeded race points at the lock-release windows) accepted only if TLC finds a serial order of all commands that explains every socket's reply order, per-pair relay order and the final state; MC_Reg explores all orders of registration steps at design level", "6"),
- "C19": ("MC_Oper/MC_Slots: incrementally kept counters equal derived truth on every state, LUSERS/ISON replies true, connection slots freed by every ending; replay + random histories", "7/C19"),
+ "C19": ("MC_Oper/MC_Slots/MC_Query: incrementally kept counters equal derived truth on every state, the maximum is the high-water mark, LUSERS/ISON/USERHOST replies true (flags, repeated, unknown and differently-cased names), connection slots freed by every ending; every query command form in MC_Query; replay + random histories", "7/C19"),
 }
 BUILT = sorted(CLAIMS)
 checks = []
@@ -46,13 +46,13 @@ for pid in BUILT:
     })
 hooks_commit = subprocess.run(["git", "-C", "/repo", "log", "--format=%H", "--grep", "verif hooks"], capture_output=True, text=True).stdout.split()
 m = {"version": 1,
-     "setup_cmd": "cd /verif/harness && cargo build --offline && cd /verif/spec && for m in IrcSpec IrcProps IrcModel TraceSeq GlobVec Parser Framer Keepalive ConfigValid; do [ -f $m.tla ] && tla-sany $m.tla >/dev/null || true; done",
+     "setup_cmd": "cd /verif/harness && cargo build --offline && cd /verif/spec && for m in IrcSpec IrcProps IrcModel TraceSeq TraceLin GlobVec Parser Framer Keepalive ConfigValid LockFlush; do [ -f $m.tla ] && tla-sany $m.tla >/dev/null || true; done",
      "hooks": {"guard": "simple_irc_server_verif",
                "enable": "RUSTFLAGS='--cfg simple_irc_server_verif' via /verif/harness/.cargo/config.toml; the harness compiles /repo/src by #[path]",
                "baseline_off_cmd": "cd /repo && cargo test --offline --no-fail-fast -- command::test config::test reply::test state::structs::test utils::test",
                "source_commits": hooks_commit, "add_only": True},
      "engines": [{"name": "tla-spec", "path": "/verif/spec", "serves_properties": BUILT,
-                  "kind_free_text": "TLA+ specification (IrcSpec/IrcProps/IrcProj + MC_* models, TraceSeq, GlobVec, Parser, Framer) checked with TLC; Rust conformance harness in /verif/harness"}],
+                  "kind_free_text": "TLA+ specification (IrcSpec/IrcProps/IrcProj + 17 MC_* models, MC_RegMicro, LockFlush, TraceSeq, TraceLin, GlobVec, Parser, Framer, Shapes, Keepalive, TraceTimers, ConfigValid) checked with TLC; Rust conformance harness in /verif/harness"}],
      "checks": checks,
      "notes": "See DESIGN.md. bin/check <id> --tier quick|thorough; exit 0 held, 1 VIOLATION, 2 tool error.",
      "not_applicable": [{"property_id": p, "reason": "check under construction in this session (planned in DESIGN.md section 7); not claimed until it runs green on the unchanged tree"} for p in ids if p not in BUILT]}
